@@ -15,6 +15,9 @@ Explicit-state search over a machine with two registers r0, r1 holding real ``CH
                     slice r_t = r_s[a:b]                one representative (a, b) per distinct result
                     fixed r_t = r_s.fixed_len(n)        results not already produced by a slice
                     + every index/slice/fixed_len call that returned an object aliasing its receiver
+                    + directed family: r1 = <empty slice / fixed_len(0) of r0>; r1 += x; fresh empty slices of
+                      r0, r1 and of a new text (on a correct tree the search merges these states with "new
+                      empty text", so they are executed separately)
   isolation       class-level data attributes of CHText / chunk / ColorFmt (on-demand caches, shared instances)
                   are restored to their import-time values before every history, so each history is
                   self-contained and replays; a register that holds an object also held by a class attribute
@@ -156,7 +159,7 @@ def bounds(tier):
 
 
 def shards(tier):
-    out = [("chunks", configs(tier)[-1])]
+    out = [("chunks", configs(tier)[-1]), ("empty", configs(tier)[-1])]
     for cfg in configs(tier):
         p = params(cfg)
         out += [("prefix", cfg, k, p["nprefix"]) for k in range(p["nprefix"])]
@@ -1063,6 +1066,54 @@ def frontier(cfg):
     return _FRONTIER[tier]
 
 
+def run_empty_results(cfg, acc):
+    """Directed family (states the search merges with 'a new empty text' on a correct tree, executed anyway):
+    r1 = <empty slice / fixed_len(0) of r0>; r1 += x; then a fresh empty slice of r0, of r1 and of a new text.
+    Every step is compared with the reference; each history starts from the import-time class state."""
+    p = params(cfg)
+    m = Machine(p)
+    strs, chunks = pool(p)
+    empties = [["slice", 1, 0, 3, 3], ["slice", 1, 0, 5, 4], ["slice", 1, 0, 100, 200], ["slice", 1, 0, None, 0],
+               ["fixed", 1, 0, 0]]
+    operands = [x for x in strs + chunks if x[-1] != ""] + [["r", 0]]
+    probes = [[["slice", 0, 0, 2, 2]], [["fixed", 0, 0, 0]], [["slice", 0, 1, 0, 0]],
+              [["new", 0, [["s", "bc"]]], ["slice", 0, 0, 5, 4]], [["slice", 0, 0, 100, 200], ["iadd", 0, ["c", 2, "g"]]]]
+    for h in [[]] + frontier(cfg)["l1"]:
+        if acc.expired():
+            return
+        for e in empties:
+            for x in operands:
+                for pr in probes:
+                    hist = h + [e, ["iadd", 1, x]] + pr
+                    regs, refs = m.fresh()
+                    origin = None
+                    outcome = "ok-empty-result-family"
+                    for i, op in enumerate(hist):
+                        try:
+                            if len(apply_ref(op, refs)[op[1]]) > 2 * p["L"] + 2:
+                                outcome = "too-long"
+                                break
+                        except IndexError:
+                            pass
+                        regs2, refs2, origin, viol = m.step(op, regs, refs, origin)
+                        acc.trans(1)
+                        if viol is not None:
+                            sig, msg, obs, exp = viol
+                            acc.violation("C08:" + sig, {"history": hist[:i + 1]}, msg, obs, exp)
+                            outcome = "violation:" + sig
+                            break
+                        if regs2 is None:
+                            break
+                        regs, refs = regs2, refs2
+                    acc.case(nontrivial=True, features=("family:empty-slice-result-extended-in-place",),
+                             outcome=outcome)
+        for f, n in m.feats.items():
+            acc.feat(f, n)
+        acc.trans(m.nlight)
+        m.feats = {}
+        m.nlight = 0
+
+
 def run_shard(shard, tier, seed, acc):
     cfg = shard[1]
     p = params(cfg)
@@ -1070,6 +1121,9 @@ def run_shard(shard, tier, seed, acc):
     try:
         if shard[0] == "chunks":
             run_chunks(p, acc)
+            return
+        if shard[0] == "empty":
+            run_empty_results(cfg, acc)
             return
         fr = frontier(cfg)
         m = Machine(p)
